@@ -143,6 +143,11 @@ func c05Run(c *fw.Ctx, idx int) {
 	if !expectGeom(c, "wkt.Unmarshal(Marshal(g))", back, g, model.Opts{}) {
 		return
 	}
+	if r.Chance(1, 2) {
+		// the parsed geometry is the caller's: it is filled further and overwritten;
+		// parsing the same or another text later must not hand out any of it again
+		callerScribbles(c, back)
+	}
 	// (2) the independent reader
 	rg, rerr := ref.ReadWKT(text)
 	c.Eval(1)
@@ -179,6 +184,9 @@ func c05Run(c *fw.Ctx, idx int) {
 		}
 		if !expectGeom(c, fmt.Sprintf("wkt.Unmarshal(spelling with %s)", strings.Join(feats, ",")), pt, g, model.Opts{}) {
 			return
+		}
+		if r.Chance(1, 3) {
+			callerScribbles(c, pt)
 		}
 	}
 	// NewEncoder().Encode is the same function
